@@ -209,6 +209,47 @@ def run_mut_family(prop, tier, seed):
     return report_and_exit(prop, ev, violations)
 
 
+def run_js_family(prop, tier, seed):
+    from . import family_js
+    nwl, nsched = {"quick": (15, 4), "thorough": (120, 40)}[tier]
+    ev = Evidence(prop, tier, seed, "fault_enumeration")
+    ev.rule = ("jobserver as fifo (--jobserver-auth=fifo:PATH) or inherited pipe fds, K in {0,1,2,3,7} "
+               "tokens of which a random number are held by scripted other make jobs; outcomes "
+               "enumerated per workload: success, error return at each of 8 sites, unwinding panic at "
+               "each of 15 phase boundaries (+2 in fork mode), plus panics at random scheduler steps; "
+               "fork and --no-fork; no --threads argument. Oracle: pool_built event has threads <= "
+               "tokens+1 and tokens <= available; after wild and every descendant exited the fifo/pipe "
+               "holds as many tokens as before. distinct_nontrivial = distinct (workload, interleaving, "
+               "fault) with a context switch")
+    ev.assumptions = ["abort/kill outcomes are outside the property (nobody can return a dead process's "
+                      "tokens)"]
+    jobs = [{"prop": prop, "seed": seed, "index": i, "tier": tier, "schedules": nsched}
+            for i in range(nwl)]
+    violations = _collect(prop, ev, pool_imap(family_js.run_job, jobs))
+    _probe_gate(prop, tier, ev)
+    return report_and_exit(prop, ev, violations)
+
+
+def run_relink_family(prop, tier, seed):
+    from . import family_relink
+    family_relink.host_binary()
+    nwl, nsched = {"quick": (16, 3), "thorough": (160, 12)}[tier]
+    ev = Evidence(prop, tier, seed, "exploration")
+    ev.rule = ("history: link v1 -> start a process that execve's it (static exe) or dlopen's it (shared "
+               "object, gcc-built host) and blocks after touching its first page -> relink v2 (same or "
+               "different size) to the same path with default options under a simulated schedule "
+               "(threads 1/2/4, fork/no-fork) -> release the old process, which walks page-aligned "
+               "functions and data pages it had not touched. Oracle: old process prints v1's checksum "
+               "and exits 0; if the relink exited 0 a fresh process prints v2's checksum. "
+               "distinct_nontrivial = distinct (history, interleaving) with a context switch")
+    ev.assumptions = ["real kernel page-cache/ETXTBSY semantics"]
+    jobs = [{"prop": prop, "seed": seed, "index": i, "tier": tier, "schedules": nsched}
+            for i in range(nwl)]
+    violations = _collect(prop, ev, pool_imap(family_relink.run_job, jobs))
+    _probe_gate(prop, tier, ev)
+    return report_and_exit(prop, ev, violations)
+
+
 def run_err_family(prop, tier, seed):
     from . import family_err
     nwl, nsched = BUDGETS_ERR[tier]
@@ -228,6 +269,9 @@ def run_err_family(prop, tier, seed):
 
 
 REQUIRED_PROBES = {
+    "C35": ["runs_with_tokens", "fired_err", "fired_panic", "style_fifo", "style_pipe", "fork",
+            "nofork"],
+    "C21": ["kind_exe", "kind_shared", "relink_ok", "probe_old_output_renamed_away"],
     "C20": ["inwindow_role_object", "inwindow_role_archive", "inwindow_role_thin-archive-index",
             "inwindow_role_thin-member", "inwindow_role_linker-script", "inwindow_role_script-input",
             "detected", "window_after-verify-start"],
@@ -294,6 +338,10 @@ def run(prop, tier, seed):
         return run_arch_family(prop, tier, seed)
     if prop == "C20":
         return run_mut_family(prop, tier, seed)
+    if prop == "C35":
+        return run_js_family(prop, tier, seed)
+    if prop == "C21":
+        return run_relink_family(prop, tier, seed)
     if prop in FS_BUDGET:
         return run_fs_family(prop, tier, seed)
     if prop == "C26":
@@ -316,6 +364,12 @@ def replay(path):
         job = dict(rp["job"])
         job["prop"] = doc["property"]
         res = family_str.run_job(job)
+    elif fam == "js":
+        from . import family_js
+        res = family_js.run_job(dict(rp["job"]))
+    elif fam == "relink":
+        from . import family_relink
+        res = family_relink.run_job(dict(rp["job"]))
     elif fam == "mut":
         from . import family_mut
         res = family_mut.run_job(dict(rp["job"]))
